@@ -76,6 +76,8 @@ func rewrites() []textRewrite {
 		{"go/libraries/doltcore/sqle/dsess/mutexmap/mutexmap.go", `(?m)^\tkeyedMutex\.mu\.Lock\(\)$`, "\tdsimLock(&keyedMutex.mu)", 1},
 		{"go/libraries/doltcore/sqle/dsess/sequence_tracker.go", `(?m)^(\tcurrState, ok := loadSequenceState\(a\.sequences, relationName\)\n\tif !ok \{\n\t\t// Missing tracker state)`, "\tdsimSeqYield(\"seq.before-load\")\n$1", 1},
 		{"go/libraries/doltcore/sqle/dsess/sequence_tracker.go", `(?m)^(\t+)(a\.sequences\.Store\(relationName, (?:nextState|givenState)\))$`, "${1}dsimSeqYield(\"seq.before-store\")\n${1}${2}", 2},
+		// a scheduling point before every git subprocess of the git-backed blobstore (C42)
+		{"go/store/blobstore/internal/git/runner.go", `(?m)^(func \(r \*Runner\) (?:Run|Start)\(ctx context\.Context, opts RunOptions, args \.\.\.string\) \([^)]*\) \{)$`, "$1\n\tdsimGitYield(args)", 2},
 		// the puller's table-file size: one transfer becomes many files when a run lowers it
 		{"go/libraries/doltcore/doltdb/doltdb.go", `defaultTargetFileSize, srcCS`, "DsimPullTargetFileSize, srcCS", 1},
 	}
